@@ -69,7 +69,8 @@ def generate(rng, idx, tier):
         f = c08._wchoice(rng, OPS_W)
         op = {"op": f, "a": rng.randrange(1000), "b": rng.randrange(1000), "c": rng.randrange(1000)}
         if f == "reindex_elements":
-            op.update(et=rng.choice(REINDEX_ET), shift=rng.choice([1, 7, 100]), partial=rng.random() < 0.4)
+            op.update(et=rng.choice(REINDEX_ET), shift=rng.choice([1, 7, 100]), partial=rng.random() < 0.4,
+                      mode=rng.choice(["above", "above", "shift_all", "swap", "rotate"]))
         elif f == "drop_elements":
             op.update(et=rng.choice(DROP_ET))
         elif f == "drop_elements_simple":
@@ -546,6 +547,8 @@ def apply_op(net, op):
         sel = idx[::2] if op["partial"] else idx
         top = max(idx) + op["shift"]
         lookup = {old: top + j + 1 for j, old in enumerate(sel)}
+        if et != "group":
+            lookup = ops.overlapping_lookup(idx, op.get("mode", "above"), a, b) or lookup
         tb.reindex_elements(net, et, lookup=lookup)
         return net, f"reindex_elements:{et}", f"{len(lookup)} rows"
     if k == "create_continuous_bus_index":
